@@ -86,7 +86,10 @@ def h_reconcile(ctx, case):
     sizes = case['sizes']
     ng = case['genes']
     levels, names = level_names(sizes)
-    parents = symbolic_parents(ctx, sizes, onto=case.get('onto', True))
+    if case.get('parents'):
+        parents = {li + 1: list(p) for li, p in enumerate(case['parents'])}
+    else:
+        parents = symbolic_parents(ctx, sizes, onto=case.get('onto', True))
     data = tree_data(levels, names, parents)
     orc = Oracle(levels, names, parents)
     tree = TaxonomyTree(data=data)
@@ -94,7 +97,8 @@ def h_reconcile(ctx, case):
         if case.get('perm_ref') else REF_GENES[:ng]
     # query genes: any subset of the universe in any order, plus a gene
     # the reference does not have
-    qsub = [REF_GENES[i] for i in ctx.subset('query_has', ng)]
+    qsub = list(REF_GENES[:ng]) if case.get('full_query') else \
+        [REF_GENES[i] for i in ctx.subset('query_has', ng)]
     if case.get('perm_query') and len(qsub) > 1:
         qsub = [qsub[i] for i in ctx.perm('query_order', len(qsub))]
     query = ['qOnly'] + qsub
@@ -106,6 +110,9 @@ def h_reconcile(ctx, case):
     foreign_needed = False
     for p in all_par:
         k = parent_key(p)
+        if case.get('only_chain') and p is not None and \
+                not p[1].endswith('x0'):
+            continue      # only the first node of each level is listed
         if not ctx.flag(f"listed[{k}]"):
             continue
         lst = [REF_GENES[i] for i in ctx.subset(f"markers[{k}]", ng)]
@@ -251,7 +258,12 @@ HARNESSES = [
                    # nearest-first order of the ancestor fallback needs a
                    # parent with two proper ancestors below the root
                    {'sizes': [1, 1, 1, 2], 'genes': 2, 'max_min': 1},
-                   {'sizes': [1, 1, 2], 'genes': 2, 'max_min': 1}],
+                   {'sizes': [1, 1, 2], 'genes': 2, 'max_min': 1},
+                   # a parent below the minimum whose nearest ancestor is
+                   # below the minimum too (three levels of real choices)
+                   {'sizes': [2, 3, 4], 'genes': 3, 'max_min': 2,
+                    'parents': [[0, 0, 1], [0, 0, 1, 2]],
+                    'only_chain': True, 'full_query': True}],
             thorough_cases=[
                 {'sizes': [2], 'genes': 3, 'perm_ref': True,
                  'perm_query': True, 'foreign': True, 'dups': True},
